@@ -131,8 +131,8 @@ class DirectMethod:
         for c, m, args in stage._constraints["point"]:
             self.opti.subject_to(self.eval_top(stage, c), scale=args["scale"], meta = m)
         self.opti.add_objective(self.eval_top(stage, stage._objective))
+        self.set_parameter(stage, self.opti) # first: guesses may be expressions of the parameters
         self.set_initial(stage, self.opti, stage._initial)
-        self.set_parameter(stage, self.opti)
 
     def set_initial(self, stage, master, initial):
         opti = master.opti if hasattr(master, 'opti') else master
@@ -185,7 +185,8 @@ class DirectMethod:
         self.opti.debug.show_infeasibilities(*args)
 
     def initial_value(self, stage, expr):
-        return self.opti.value(expr, self.opti.initial())
+        opti = stage.master._method.opti # the one Opti instance of the whole (possibly multi-stage) problem
+        return opti.value(expr, opti.initial())
 
     @property
     def gist(self):
